@@ -9,7 +9,7 @@
    any   : b v | s v | i v | l v | f bits | d bits | B hex | S hex | I n v* | L n v* | [ n a* | { n (keyhex a)*
    tree  : as driver/c01.ml
      B <idx> <file|net> <val|ptr> <namehex> <decl...> ; <dvalue...>    struct with embedded structs (typeFields)
-   decl  : DL n d*   with d = DF namehex flags(t o l s -) T | DE <v|p> n d*
+   decl  : DL n d*   with d = DF namehex flags(t o l s -) T | DE <v|p> n d*   (T lines: SE <v|p> tid n d* instead of DE)
    dvalue: VL n x*   with x = VF v | VE n x* | VN
    result lines:  M <idx> ok <hex> <namehex> <left> <value...> | M <idx> ok <hex> derr | M <idx> err | M <idx> panic *)
 
@@ -297,5 +297,27 @@ let () = iter_lines (fun line ->
          | DPanic -> Printf.printf "K %s dpanic\n" idx
          | DFuel -> Printf.printf "K %s dfuel\n" idx
          | DOut -> Printf.printf "K %s dout\n" idx)
+    | "T" :: idx :: root :: rest ->
+        let rec parse_sdecl (toks : string list) : sfield * string list =
+          match toks with
+          | "SE" :: p :: tid :: n :: r ->
+              let (ds, r') = take_n parse_sdecl (int_of_string n) r in (SE (p = "p", nat_of_int (int_of_string tid), ds), r')
+          | _ -> (match parse_decl toks with
+                  | (DF (fi, tg, t), r') -> (SF (fi, tg, t), r')
+                  | _ -> failwith "sdecl") in
+        let ds = (match rest with
+                  | "DL" :: n :: r -> fst (take_n parse_sdecl (int_of_string n) r)
+                  | _ -> failwith "sdecls") in
+        let rec int_of_nat = function O -> 0 | S k -> 1 + int_of_nat k in
+        let tbl = tf_table (nat_of_int (int_of_string root)) ds in
+        let b = Buffer.create 256 in
+        Buffer.add_string b ("T " ^ idx ^ " " ^ string_of_int (List.length tbl));
+        List.iter (fun tf ->
+          Buffer.add_char b ' ';
+          Buffer.add_string b (String.concat "." (List.map (fun k -> string_of_int (int_of_nat k)) tf.tf_path));
+          Buffer.add_char b ':'; hexs b tf.tf_fi.f_name; Buffer.add_char b ':';
+          let fl = (if tf.tf_tagged then "t" else "") ^ (if tf.tf_fi.f_omit then "o" else "") ^ (if tf.tf_fi.f_list then "l" else "") in
+          Buffer.add_string b (if fl = "" then "-" else fl)) tbl;
+        print_endline (Buffer.contents b)
     | _ -> Printf.printf "?? %s\n" (if String.length line > 60 then String.sub line 0 60 else line)
   with Failure m -> Printf.printf "?? parse %s\n" m)
